@@ -1,5 +1,6 @@
 import PsModel.Lemmas.C03
 import PsModel.Lemmas.C03Scope
+import PsModel.Lemmas.C03Cells
 /-!
 # C03 – property theorems (a): argument binding of script functions
 
@@ -285,5 +286,108 @@ example : Stmt.PlainishL
      .node .withT [.name "w"] [.node .handler [.name "e"] [.node .ann [.name "v"] []]], .node .defName [.name "g"] [],
      .node .importN [.name "m"] []] := by
   simp [Stmt.PlainishL, Stmt.Plainish]
+
+/-! ## (d) the run-time life cycle of closure cells (`Model/C03Cells.lean` vs `Spec/C03Cells.lean`)
+
+Proved here: the static halves of the two interpreters agree for every body (`C03_cells_locals`, `C03_cells_has_closure`);
+every NAME OPERATION of pyscript's table discipline, applied to the table that stands for a Python frame (`absF`), does what
+Python's operation does on that frame – for every frame, store, globals and every name the function mentions
+(`C03_cells_read`, `_write`, `_unbind`; `del`, the comprehension, closure creation and call entry are not proved in general); the deviations are witnesses.  The lifting of these one-step
+simulations to whole program runs (induction over the evaluator) is NOT proved: whole runs are tied by correspondence only. -/
+namespace Cells
+
+/-- `local_names` is Python's set of names bound in the body, for every body -/
+theorem C03_cells_locals (fd : FnDef) : PS.localNames fd = Py.bound fd := localNames_eq fd
+
+/-- `check_for_closure` finds a nested def exactly when there is one (which decides whether locals live in cells) -/
+theorem C03_cells_has_closure (ss : List Stmt) : PS.hasInnerL ss = Py.hasDefL ss := hasInnerL_eq ss
+
+/-- `ast_name` on the table = Python's read of the frame, for every mentioned name -/
+theorem C03_cells_read (f : Py.Frame) (g : Glob) (s : Store) (x : String) (hx : x ∈ PS.names f.fd) :
+    PS.read (absF f) g s x = Py.read f g s x := by
+  simp only [PS.read, Py.read, absF, view, localNames_eq, List.contains_eq_mem]
+  by_cases hg : x ∈ f.fd.globals
+  · simp [hg]
+    cases g x <;> rfl
+  · rcases he : f.env x with _ | ⟨a, y⟩ <;> rcases hf : f.fast x with _ | v <;> rcases hgx : g x with _ | w <;>
+      simp [hg, hx] <;> try (cases s a y <;> rfl)
+
+/-- `recurse_assign` on the table = Python's assignment: same globals and store, and the new table stands for the new frame -/
+theorem C03_cells_write (f : Py.Frame) (g : Glob) (s : Store) (x : String) (v : Val) (hx : x ∈ PS.names f.fd) :
+    PS.write (absF f) g s x v = (absF (Py.write f g s x v).1, (Py.write f g s x v).2) := by
+  by_cases hg : x ∈ f.fd.globals
+  · simp [PS.write, Py.write, absF, hg]
+  · rcases he : f.env x with _ | ⟨a, y⟩
+    · have ht : (absF f).tab x = (f.fast x).map Entry.raw := by simp [absF, view, hx, hg, he]
+      have hw : PS.write (absF f) g s x v = ({ absF f with tab := upd (absF f).tab x (some (.raw v)) }, g, s) := by
+        simp only [PS.write]
+        have : (absF f).globalNames.contains x = false := by simp [absF, hg]
+        rw [this, ht]
+        cases f.fast x <;> rfl
+      rw [hw]
+      simp only [Py.write, List.contains_eq_mem, hg, decide_false, Bool.false_eq_true, if_false, he]
+      simp only [absF, Prod.mk.injEq, and_true]
+      congr 1
+      funext z
+      by_cases hz : z = x
+      · subst hz; simp [upd, hx, hg, view, he]
+      · simp [upd, hz, view]
+    · have ht : (absF f).tab x = some (.cell a y) := by simp [absF, view, hx, hg, he]
+      simp [PS.write, Py.write, hg, he, absF, view, hx]
+
+/-- the end of an `except … as x` clause -/
+theorem C03_cells_unbind (f : Py.Frame) (g : Glob) (s : Store) (x : String) (hx : x ∈ PS.names f.fd) :
+    PS.unbind (absF f) g s x = (absF (Py.unbind f g s x).1, (Py.unbind f g s x).2) := by
+  by_cases hg : x ∈ f.fd.globals
+  · simp [PS.unbind, Py.unbind, absF, hg]
+  · rcases he : f.env x with _ | ⟨a, y⟩
+    · have ht : (absF f).tab x = (f.fast x).map Entry.raw := by simp [absF, view, hx, hg, he]
+      have hw : PS.unbind (absF f) g s x = ({ absF f with tab := upd (absF f).tab x none }, g, s) := by
+        simp only [PS.unbind]
+        have : (absF f).globalNames.contains x = false := by simp [absF, hg]
+        rw [this, ht]
+        cases f.fast x <;> rfl
+      rw [hw]
+      simp only [Py.unbind, List.contains_eq_mem, hg, decide_false, Bool.false_eq_true, if_false, he]
+      simp only [absF, Prod.mk.injEq, and_true]
+      congr 1
+      funext z
+      by_cases hz : z = x
+      · subst hz; simp [upd, hx, hg, view, he]
+      · simp [upd, hz, view]
+    · have ht : (absF f).tab x = some (.cell a y) := by simp [absF, view, hx, hg, he]
+      simp [PS.unbind, Py.unbind, hg, he, absF, view, hx]
+
+/-- finding C03-F12 at the level of the operation: `del` of a declared-global name that does not exist -/
+theorem C03_cells_del_global_cex :
+    let f : Py.Frame := ⟨⟨"f", [], [.declG "x", .del "x"]⟩, fun _ => none, fun _ => none⟩
+    (PS.del Current.cellCfg (absF f) (fun _ => none) (fun _ _ => none) "x").toOption.isSome = true ∧
+    (Py.del f (fun _ => none) (fun _ _ => none) "x").toOption.isSome = false ∧
+    (PS.del Cfg.repaired (absF f) (fun _ => none) (fun _ _ => none) "x").toOption.isSome = false := by
+  refine ⟨by decide, by decide, by decide⟩
+
+/-- finding C03-F17 at the level of the operation: inner function, free variable `x` (a shared cell that is unbound),
+module global `x = 5`: the iterable of `[x for x in (x,)]` reads the global; Python raises NameError; with the iterable
+evaluated first (`compIterFirst`) the table discipline raises too -/
+theorem C03_cells_comp_iter_cex :
+    let f : Py.Frame := ⟨⟨"inner", [], [.ret (.comp "x" [.var "x"] (.var "x"))]⟩, fun y => if y = "x" then some (0, "x") else none, fun _ => none⟩
+    let g : Glob := fun y => if y = "x" then some (.int 5) else none
+    (PS.comp Current.cellCfg (absF f) g (fun _ _ => none) "x" [.var "x"] (.var "x")).2.2.toOption = some [.int 5] ∧
+    (Py.comp f g (fun _ _ => none) "x" [.var "x"] (.var "x")).2.2.toOption = none ∧
+    (PS.comp Cfg.repaired (absF f) g (fun _ _ => none) "x" [.var "x"] (.var "x")).2.2.toOption = none := by
+  refine ⟨by decide, by decide, by decide⟩
+
+/-- finding C03-F13 at the level of the operation: the loop variable of a comprehension is a declared global: the loop
+values are written through to the module global; Python (and the repaired shape) leave it alone -/
+theorem C03_cells_comp_global_cex :
+    let f : Py.Frame := ⟨⟨"f", [], [.declG "x", .expr (.comp "x" [.lit 5, .lit 6] (.var "x"))]⟩, fun _ => none, fun _ => none⟩
+    let g : Glob := fun y => if y = "x" then some (.int 1) else none
+    (PS.comp Current.cellCfg (absF f) g (fun _ _ => none) "x" [.lit 5, .lit 6] (.var "x")).2.1 "x" = some (.int 6) ∧
+    (Py.comp f g (fun _ _ => none) "x" [.lit 5, .lit 6] (.var "x")).2.1 "x" = some (.int 1) ∧
+    (PS.comp Cfg.repaired (absF f) g (fun _ _ => none) "x" [.lit 5, .lit 6] (.var "x")).2.1 "x" = some (.int 1) ∧
+    (PS.comp Current.cellCfg (absF f) g (fun _ _ => none) "x" [.lit 5, .lit 6] (.var "x")).2.2.toOption = some [.int 5, .int 6] := by
+  refine ⟨by decide, by decide, by decide, by decide⟩
+
+end Cells
 
 end PsModel.C03
